@@ -3,7 +3,7 @@ import re
 
 from ..facts import walk, strip, strip_casts, lv, show, writes, calls, int_value, root_var, table_py
 from ..flow import MustFacts, cond_atoms
-from ..q import (Site, call_sites, indirect_call_sites, site_before, forward_scan, backward_scan, const_eval, edge_start, elem_has_call)
+from ..q import (Site, call_sites, indirect_call_sites, site_before, forward_scan, backward_scan, const_eval, edge_start, elem_has_call, chain_elems)
 from ..absw import AbsWalk
 from ..order import PureEval
 from ..snapshot import AnalysisBroken
@@ -305,10 +305,10 @@ def r03_2(prog, rep):
     else:
         tb = cfg.blocks[pb[0]].succs[0]
         seq = []
-        for e in cfg.blocks[tb].elems:
+        for eb, ei, e in chain_elems(cfg, tb):
             for c in calls(e["x"]):
                 if c.get("fn") in (POP, PEEK):
-                    seq.append((c["fn"], _strm_index(f, tb, c)))
+                    seq.append((c["fn"], _strm_index(f, eb, c)))
             for l, kind, n in writes(e["x"]):
                 if "->ev[" in lv(l):
                     seq.append(("cache", lv(l).split("->ev[")[1].rstrip("]")))
